@@ -3,6 +3,7 @@ SPECIFICATION Spec
 CONSTANTS
   MaxProd = 2
   MaxDepth = 6
+  OnlyKinds = {"namespace"}
   IncludeGuard = TRUE
   NsNoneCheck = TRUE
   HexBounds = TRUE
